@@ -322,6 +322,23 @@ theorem commit_is_joint (cfg : Cfg) (ops : List Op) (hno : Op.freset ∉ ops) (s
   have ⟨h3, h4, h5⟩ := h2 hack
   exact ⟨h1, h3, h4, h5, h1.2.1 h3⟩
 
+theorem removeFabricKey_window (n : Node) (idx : Nat) : (removeFabricKey n idx).1.window = n.window := by
+  have hk : (kvTick n).1.window = n.window := by unfold kvTick; split <;> (try split) <;> rfl
+  unfold removeFabricKey
+  rcases ht : kvTick n with ⟨n1, bad⟩
+  rw [ht] at hk
+  cases bad with
+  | true => exact hk
+  | false =>
+    simp only [Bool.false_eq_true, if_false]
+    split <;> exact hk
+
+theorem undoAdded_window (n : Node) (idx : Nat) : (undoAdded n idx).window = n.window := by
+  unfold undoAdded
+  split
+  · exact removeFabricKey_window n idx
+  · rfl
+
 /-- a CommissioningComplete that is NOT acknowledged (wrong context, store failure at either write)
 leaves the fail-safe exactly as it was - armed: it rolls back at the expiry or can be retried
 (fixed finding `C08-complete-not-atomic`) -/
@@ -366,7 +383,14 @@ theorem complete_ok_or_unchanged (cfg : Cfg) (n : Node) (sid s : Nat) (mode : Mo
           rw [hr2] at hfr2 hw2
           simp only at hfr2 hw2
           cases b2 with
-          | false => exact Or.inr ⟨hfr2.fs.trans hfr1.fs, hfr2.sessions.trans hfr1.sessions, hw2.trans hw1⟩
+          | false =>
+            refine Or.inr ?_
+            simp only []
+            have hu := undoAdded_frame { n2 with managed := n1.managed } f.idx
+            have hwu : (undoAdded { n2 with managed := n1.managed } f.idx).window = n2.window :=
+              undoAdded_window _ f.idx
+            exact ⟨hu.fs.trans (hfr2.fs.trans hfr1.fs), hu.sessions.trans (hfr2.sessions.trans hfr1.sessions),
+              hwu.trans (hw2.trans hw1)⟩
           | true => exact Or.inl rfl
 
 theorem failed_complete_stays_armed (cfg : Cfg) (n : Node) (sid s : Nat) (mode : Mode)
@@ -560,17 +584,48 @@ def C08_full_rollback : Prop :=
     ∀ i, i ≠ 0 → getFabric (expireAndPurge cfg (run cfg (run cfg {} ops0) ops1) a exp).1 i =
                   getFabric (run cfg {} ops0) i
 
-/-- FALSE of the code (open finding `C08-complete-partial-commit`): CommissioningComplete writes the
-fabric, then the networks; when the SECOND write fails the command is answered with an error and the
-fail-safe stays armed, but the fabric record is in the store - the expiry then "restores" it. -/
+/-- FALSE of the code (open finding `C08-complete-partial-commit`, the half that is left):
+CommissioningComplete writes the fabric, then the networks; when the SECOND write fails the command
+is answered with an error and the fail-safe stays armed. For a fabric ADDED under the fail-safe the
+record is removed again (`failed_complete_added_fabric_rolls_back`); for a fabric that EXISTED before
+(UpdateNOC, deferred writes) the store holds only the new record - the old one is gone, nothing can be
+put back, and the expiry "restores" the uncommitted identity. -/
 theorem C08_full_rollback_false : ¬ C08_full_rollback := by
   intro h
-  have := h {} [] [.boot, .pase, .arm 0 60, .csr 0 false, .root 0 1, .addnoc 0 1 5 10 100 1,
-    .caseEst 1 100 1, .kvfail 2, .complete 1]
-    { fab := 1, flags := { addCsr := true, root := true, addNoc := true }, timeout := 60, armedAt := 0 } none
+  have := h {} [.boot, .pase, .arm 0 60, .csr 0 false, .root 0 1, .addnoc 0 1 5 10 100 1,
+    .caseEst 1 100 1, .complete 1] [.arm 1 60, .net 1 3, .csr 1 true, .updnoc 1 11 2, .kvfail 2, .complete 1]
+    { fab := 1, flags := { updCsr := true, updNoc := true }, timeout := 60, armedAt := 0 } none
     (by decide) (by decide) (by decide) (by decide) (by decide) (by decide) (by decide) (by decide) 1 (by decide)
   revert this
   decide
+
+/-- **the repaired half** (`C08-complete-partial-commit` for the commissioning of a NEW fabric): after
+any history, a CommissioningComplete of a fabric added under the fail-safe that is not acknowledged -
+whichever write fails - leaves the fabric records and the networks in the store exactly as they were;
+the fail-safe stays armed (`failed_complete_stays_armed`), so the expiry rolls the commissioning back
+(`rollback_restores`) and a restart comes up without it. -/
+theorem failed_complete_added_fabric_rolls_back (cfg : Cfg) (n : Node) (sid s : Nat) (mode : Mode) (a : Armed)
+    (hfs : n.fs = some a) (hadd : a.flags.addNoc = true) (hnone : kvF n.kv mode.fab = none)
+    (hfail : (sessOp cfg n sid mode (.complete s)).2 ≠ .ok) :
+    (∀ i, kvF (sessOp cfg n sid mode (.complete s)).1.kv i = kvF n.kv i) ∧
+    (sessOp cfg n sid mode (.complete s)).1.kv.nets = n.kv.nets ∧
+    (sessOp cfg n sid mode (.complete s)).1.fs = n.fs :=
+  ⟨(failed_complete_of_added_fabric_undone cfg n sid s mode a hfs hadd hnone hfail).1,
+   (failed_complete_of_added_fabric_undone cfg n sid s mode a hfs hadd hnone hfail).2,
+   (failed_complete_stays_armed cfg n sid s mode hfail).1⟩
+
+/-- the hypotheses are met by the replay of the repaired finding: second write of the
+CommissioningComplete of a new fabric fails; afterwards the store holds no fabric, and the expiry
+leaves none in the node -/
+example :
+    let n := run {} {} [.boot, .pase, .arm 0 60, .net 0 3, .csr 0 false, .root 0 2, .addnoc 0 2 2 10 100 1,
+      .caseEst 1 101 1, .kvfail 2]
+    (∃ a, n.fs = some a ∧ a.flags.addNoc = true) ∧ kvF n.kv 1 = none ∧
+    (sessOp {} n 1 (.case 1) (.complete 1)).2 = .err "NoSpace" ∧
+    (sessOp {} n 1 (.case 1) (.complete 1)).1.kv.fabs = [] ∧
+    (sessOp {} n 1 (.case 1) (.complete 1)).1.hist.length = 2 ∧
+    (run {} (sessOp {} n 1 (.case 1) (.complete 1)).1 [.tick 61, .poll]).fabrics = [] := by
+  refine ⟨⟨_, rfl, by decide⟩, by decide, by decide, by decide, by decide, by decide⟩
 
 /-! ## RevokeCommissioning / OpenCommissioningWindow and the fail-safe -/
 
